@@ -543,6 +543,93 @@ def rule_r4(ctx):
     return rr
 
 
+def _right_edge_holes(v):
+    """Holes that end the rendered text (nothing, in particular no closing bracket, follows them)."""
+    if isinstance(v, Hole):
+        return [v]
+    if isinstance(v, Str):
+        for p in reversed(v.parts):
+            if isinstance(p, str):
+                if p.strip() == "":
+                    continue
+                return []
+            return _right_edge_holes(p)
+        return []
+    if isinstance(v, StrOp) and v.op == "joinrep":
+        rep = v.args[1]
+        return _right_edge_holes(rep.items[-1]) if rep.items else []
+    if isinstance(v, Rep):
+        return _right_edge_holes(v.items[-1]) if v.items else []
+    return []
+
+
+def slot_table(ctx):
+    """[(kind, path result, hole, slot kind, field, op, sole, slot precedence)] of all generators."""
+    U = ctx.ustr
+    out = []
+    for kind in asdl.EXPR_KINDS:
+        for pr in U.paths(kind):
+            if pr.outcome != "ok":
+                continue
+            for h in pr.holes:
+                sl = _slot_of(kind, pr, h)
+                if sl is None:
+                    continue
+                out.append((kind, pr, h, sl[0], sl[1], sl[2], sl[3], _slot_prec(h)))
+    return out
+
+
+def rule_r4b(ctx):
+    rr = RuleResult("C03-R4b", "inside a replacement field no expression may END in an unparenthesised lambda (its colon would start the format spec)")
+    rr.floor = 3
+    U = ctx.ustr
+    prec = U.node_precedences()
+    table = slot_table(ctx)
+    # variants whose text may end in a bare lambda
+    ends = {"Lambda"}
+    why = {"Lambda": "is a lambda"}
+    changed = True
+    while changed:
+        changed = False
+        for kind, pr, h, skind, sfield, op, sole, sp in table:
+            if sp is None:
+                continue
+            if not any(x is h for x in _right_edge_holes(pr.result)):
+                continue
+            variant = f"{kind}:{op}" if op else kind
+            if kind in ("BinOp", "BoolOp", "UnaryOp") and not op:
+                continue
+            for w in list(ends):
+                if w == "Slice" and (skind, sfield) not in G.SLICE_LEGAL:
+                    continue
+                if w == "Starred" and (skind, sfield) not in G.STARRED_LEGAL:
+                    continue
+                if skind == "comprehension" and sfield == "target":
+                    continue
+                wp = prec.get(w)
+                if isinstance(wp, int) and not U.wraps(wp, sp) and variant not in ends:
+                    ends.add(variant)
+                    why[variant] = f"its right-most slot {skind}.{sfield} (precedence {sp}) prints a child {w} (precedence {wp}) without parentheses"
+                    changed = True
+    field_slots = [(pr, h, sp) for kind, pr, h, skind, sfield, op, sole, sp in table if skind == "FormattedValue" and sfield == "value"]
+    if not field_slots:
+        raise AnalysisError("C03-R4b: the replacement-field slot was not found")
+    fp = field_slots[0][2]
+    for v in sorted(ends - {"Slice", "Starred"}):
+        rr.instances += 1
+        vp = prec.get(v)
+        what = f"field|{v}"
+        if isinstance(vp, int) and not U.wraps(vp, fp):
+            rr.fail(
+                f"C03-R4b|FormattedValue.value|{v}|lambda-at-right-edge",
+                f"{U.gen_map['FormattedValue'].where()}: a {v} is printed without parentheses inside a replacement field (slot precedence {fp}, node precedence {vp}) although {why[v]}: `f'{{a if b else lambda: 0}}'` - the lambda's colon is read as the start of the format spec",
+                where=U.gen_map["FormattedValue"].where(), what=what,
+            )
+        else:
+            rr.ok(what, sample={"rule": "C03-R4b", "variant": v, "why_it_may_end_in_lambda": why[v], "parenthesised_in_field": True})
+    return rr
+
+
 def rule_r6(ctx):
     rr = RuleResult("C03-R6", "shapes emitted by the converter lie inside the checked space; possibly-negative numeric constants only in factor-level slots")
     rr.floor = 50
@@ -643,4 +730,4 @@ def lambda_skeleton_rule(ctx):
     return rr
 
 
-RULES = [("C03-R1", rule_r1), ("C03-R2", rule_r2), ("C03-R3", rule_r3), ("C03-R4", rule_r4), ("C03-R5", rule_r5), ("C03-R6", rule_r6)]
+RULES = [("C03-R1", rule_r1), ("C03-R2", rule_r2), ("C03-R3", rule_r3), ("C03-R4", rule_r4), ("C03-R4b", rule_r4b), ("C03-R5", rule_r5), ("C03-R6", rule_r6)]
